@@ -27,6 +27,12 @@ Clause → theorem
   dependence functions get (reference, estimate) pairs             dep_fit_inputs
   each dimension gets its own (method, weights) or the default     fitPlan_per_dim, fitPlan_length,
                                                                    fitPlan_default_when_absent, missing_method_reported
+  NOT here: `DependenceFunction(weights=…, constraints=…)` — how a dependence function is fitted to
+  its pairs is C14; C09 proves which pairs it receives. Refusal of a wrong-length list is part of
+  the model (`fillFitDesc`), compared with the code at run time. PointsPerInterval WITHOUT ties
+  across a chunk boundary: order invariance observed at run time only (no theorem).
+  An unconditional dimension i is fitted to column i: run-time oracle over recording doubles and
+  shipped families (no model function; there is nothing to compute).
   PARTIAL (runtime): float summation noise of the real estimators under permutation (MLE /
   least squares are permutation-invariant only up to rounding) — compared with rtol 1e-6.
 -/
